@@ -607,6 +607,16 @@ class AstMixin:
                 raise Unsupported("2 ** symbolic")
             if op is ast.BitAnd and isinstance(a, SBool) and isinstance(b, SBool):
                 return sym.And(a, b)
+            if op in (ast.LShift, ast.RShift) and isinstance(b, SInt) and sym._small_range(b) is None:
+                # shift by an unbounded symbolic amount: Python raises ValueError for negative counts; otherwise
+                # a << k == a * 2**k with 2**k an uninterpreted positive power (enough for sign / bound reasoning)
+                if self.truth(b < 0):
+                    self.raise_(ValueError, "negative shift count")
+                p2 = sym.mk_int(sym.POW2(SInt.lift(b)))
+                self.assume(p2 >= 1)
+                if op is ast.LShift:
+                    return a * p2
+                return sym.floordiv(a, p2) if False else sym.mk_int(sym.SHR(SInt.lift(a), SInt.lift(b)))
             if isinstance(a, float) or isinstance(b, float):
                 raise Unsupported("float arithmetic with symbolic operand")
             if isinstance(a, SBool):
